@@ -23,15 +23,19 @@ static long vs_pre[8]; static int vs_npre = 0;   /* steps at which a preemption 
 /* mode 2: systematic - run without preemption except at the given steps, where the dec_choice-th other enabled thread is taken;
    when the running thread blocks, the next thread is chosen by a fixed policy (0 lowest id, 1 highest id, 2 round robin) */
 static long dec_step[8]; static int dec_choice[8]; static int n_dec = 0; static int vs_policy = 0; int vs_decision_invalid = 0;
+/* mode 3: follow a given order of mutex acquisitions (thread, mutex) taken from a TLC behaviour of ThreadPool.tla */
+static int lo_t[4096], lo_m[4096]; static int lo_n = 0, lo_pos = 0; int vs_lockorder_drift = 0;
 int vs_deadlock; int vs_max_threads_seen; static long steps; void (*vs_on_deadlock)(void);
 static FILE *logf;
 static unsigned long rnd(void){ rng ^= rng << 13; rng ^= rng >> 7; rng ^= rng << 17; return rng; }
+static int lo_ok(int t,int m){ return vs_mode!=3 || lo_pos>=lo_n || (lo_t[lo_pos]==t && lo_m[lo_pos]==m); }
 static int enabled(int t){ struct vthr *x=&T[t]; if(!x->used||x->finished) return 0;
-  switch(x->op){ case OP_LOCK: return owner[x->o1] < 0; case OP_CW_ACQ: return !waiting[x->o1][t] && owner[x->o2] < 0;
+  switch(x->op){ case OP_LOCK: return owner[x->o1] < 0 && lo_ok(t,x->o1); case OP_CW_ACQ: return !waiting[x->o1][t] && owner[x->o2] < 0 && lo_ok(t,x->o2);
     case OP_JOIN: return T[x->o1].finished; case OP_NONE: return 0; default: return 1; } }
 /* pick next thread to run; called by the thread that is yielding (it has set its op) or exiting */
 static int pick(void){ int c[MAXT], n=0; for(int t=0;t<nT;t++) if(enabled(t)) c[n++]=t;
   if(n==0){ return -1; }
+  if(vs_mode==3){ if(lo_pos<lo_n) for(int j=0;j<n;j++) if(c[j]==lo_t[lo_pos] && (T[c[j]].op==OP_LOCK||T[c[j]].op==OP_CW_ACQ)) return c[j]; return c[0]; }
   if(vs_mode==2){
     if(me>=0 && enabled(me)){
       for(int i=0;i<n_dec;i++) if(dec_step[i]==steps){ int k=dec_choice[i], seen=0; for(int j=0;j<n;j++) if(c[j]!=me){ if(seen==k) return c[j]; seen++; } vs_decision_invalid=1; }
@@ -48,21 +52,23 @@ static void maybe_spurious(void){ if(sp_pct<=0) return; for(int c=0;c<nC;c++) fo
 static void yield_op(int op,int o1,int o2){ struct vthr *x=&T[me]; x->op=op; x->o1=o1; x->o2=o2; steps++;
   maybe_spurious();
   int nx=pick();
-  if(nx<0){ int all=1; for(int t=0;t<nT;t++) if(T[t].used&&!T[t].finished) all=0; if(!all){ vs_deadlock=1; fprintf(stderr,"VS: DEADLOCK after %ld steps\n",steps); if(vs_on_deadlock) vs_on_deadlock(); for(int t=0;t<nT;t++) if(T[t].used&&!T[t].finished) fprintf(stderr,"  thread %d blocked on op %d obj %d/%d\n",t,T[t].op,T[t].o1,T[t].o2); _exit(3);} return; }
+  if(nx<0){ int all=1; for(int t=0;t<nT;t++) if(T[t].used&&!T[t].finished) all=0; if(!all){ vs_deadlock=1; if(vs_mode==3){ fprintf(stderr,"VS: lock order of the model cannot be followed at position %d of %d\n",lo_pos,lo_n); _exit(4);} fprintf(stderr,"VS: DEADLOCK after %ld steps\n",steps); if(vs_on_deadlock) vs_on_deadlock(); for(int t=0;t<nT;t++) if(T[t].used&&!T[t].finished) fprintf(stderr,"  thread %d blocked on op %d obj %d/%d\n",t,T[t].op,T[t].o1,T[t].o2); _exit(3);} return; }
   if(nx!=me){ sem_post(&T[nx].go); sem_wait(&x->go); }
   if(logf) fprintf(logf,"{\"e\":\"step\",\"t\":%d,\"op\":%d,\"o1\":%d,\"o2\":%d}\n",me,op,o1,o2);
   x->op=OP_NONE; }
 static void *tramp(void *a){ int id=(int)(long)a; me=id; sem_wait(&T[id].go); if(logf) fprintf(logf,"{\"e\":\"step\",\"t\":%d,\"op\":%d}\n",me,OP_START); T[id].op=OP_NONE;
   T[id].ret=T[id].fn(T[id].arg);
-  T[id].finished=1; T[id].op=OP_NONE; int nx=pick(); if(nx>=0) sem_post(&T[nx].go); else { int all=1; for(int t=0;t<nT;t++) if(T[t].used&&!T[t].finished) all=0; if(!all){ vs_deadlock=1; fprintf(stderr,"VS: DEADLOCK at thread exit\n"); if(vs_on_deadlock) vs_on_deadlock(); _exit(3);} }
+  T[id].finished=1; T[id].op=OP_NONE; int nx=pick(); if(nx>=0) sem_post(&T[nx].go); else { int all=1; for(int t=0;t<nT;t++) if(T[t].used&&!T[t].finished) all=0; if(!all){ vs_deadlock=1; if(vs_mode==3){ fprintf(stderr,"VS: lock order of the model cannot be followed at position %d of %d (thread exit)\n",lo_pos,lo_n); _exit(4);} fprintf(stderr,"VS: DEADLOCK at thread exit\n"); if(vs_on_deadlock) vs_on_deadlock(); _exit(3);} }
   return NULL; }
 void vs_config(int mode,int post,int npre,long horizon,unsigned long seed){ vs_mode=mode; vs_post=post; vs_npre=npre>8?8:npre; unsigned long x=seed*6364136223846793005UL+1442695040888963407UL; for(int i=0;i<vs_npre;i++){ x^=x<<13; x^=x>>7; x^=x<<17; vs_pre[i]=(long)(x%(unsigned long)(horizon>0?horizon:1)); } }
 void vs_decisions(int n,const long *st,const int *ch,int policy){ vs_mode=2; vs_post=1; n_dec=n>8?8:n; for(int i=0;i<n_dec;i++){ dec_step[i]=st[i]; dec_choice[i]=ch[i]; } vs_policy=policy; vs_decision_invalid=0; }
+void vs_lockorder(int n,const int *t,const int *m){ vs_mode=3; vs_post=1; lo_n=n>4096?4096:n; lo_pos=0; for(int i=0;i<lo_n;i++){ lo_t[i]=t[i]; lo_m[i]=m[i]; } }
+int vs_lockorder_left(void){ return lo_n-lo_pos; }
 void vs_begin(unsigned long seed,int spurious_pct){ memset(T,0,sizeof T); nT=1; nM=nC=0; memset(waiting,0,sizeof waiting); T[0].used=1; sem_init(&T[0].go,0,0); me=0; rng=seed*2654435761UL+88172645463325252UL; sp_pct=spurious_pct; steps=0; vs_deadlock=0; vs_max_threads_seen=0; const char *lp=getenv("VS_LOG"); logf= lp? fopen(lp,"w"):NULL; }
 int vs_end(void){ if(logf){fclose(logf);logf=NULL;} for(int t=1;t<nT;t++) assert(T[t].finished); return (int)steps; }
 int vs_mutex_init(pthread_mutex_t *m,const pthread_mutexattr_t *a){ (void)a; struct vmx *x=(struct vmx*)m; x->magic=0x564d5831; x->id=nM; assert(nM<MAXO); owner[nM++]=-1; return 0; }
 int vs_mutex_destroy(pthread_mutex_t *m){ struct vmx *x=(struct vmx*)m; assert(x->magic==0x564d5831); assert(owner[x->id]<0); x->magic=0; return 0; }
-int vs_mutex_lock(pthread_mutex_t *m){ struct vmx *x=(struct vmx*)m; assert(x->magic==0x564d5831); yield_op(OP_LOCK,x->id,0); assert(owner[x->id]<0); owner[x->id]=me; return 0; }
+int vs_mutex_lock(pthread_mutex_t *m){ struct vmx *x=(struct vmx*)m; assert(x->magic==0x564d5831); yield_op(OP_LOCK,x->id,0); assert(owner[x->id]<0); owner[x->id]=me; if(vs_mode==3&&lo_pos<lo_n) lo_pos++; return 0; }
 int vs_mutex_unlock(pthread_mutex_t *m){ struct vmx *x=(struct vmx*)m; assert(x->magic==0x564d5831); yield_op(OP_UNLOCK,x->id,0); assert(owner[x->id]==me); owner[x->id]=-1;
   if(vs_post) yield_op(OP_MISC,x->id,0);   /* the code after an unlock is a separate step: another thread may run in between */
   return 0; }
@@ -70,9 +76,11 @@ int vs_cond_init(pthread_cond_t *c,const pthread_condattr_t *a){ (void)a; struct
 int vs_cond_destroy(pthread_cond_t *c){ struct vcv *x=(struct vcv*)c; assert(x->magic==0x56435631); for(int t=0;t<nT;t++) assert(!waiting[x->id][t]); x->magic=0; return 0; }
 int vs_cond_wait(pthread_cond_t *c,pthread_mutex_t *m){ struct vcv *x=(struct vcv*)c; struct vmx *y=(struct vmx*)m; assert(x->magic==0x56435631&&y->magic==0x564d5831);
   yield_op(OP_CW_REL,x->id,y->id); assert(owner[y->id]==me); owner[y->id]=-1; waiting[x->id][me]=1;
-  yield_op(OP_CW_ACQ,x->id,y->id); assert(owner[y->id]<0); owner[y->id]=me; return 0; }
+  yield_op(OP_CW_ACQ,x->id,y->id); assert(owner[y->id]<0); owner[y->id]=me; if(vs_mode==3&&lo_pos<lo_n) lo_pos++; return 0; }
 int vs_cond_signal(pthread_cond_t *c){ struct vcv *x=(struct vcv*)c; assert(x->magic==0x56435631); yield_op(OP_SIGNAL,x->id,0);
   int w[MAXT],n=0; for(int t=0;t<nT;t++) if(waiting[x->id][t]) w[n++]=t; if(n){ int t=(vs_mode==2)? w[vs_policy==1? n-1:0] : w[rnd()%n]; waiting[x->id][t]=0; } return 0; }
+int vs_cond_broadcast(pthread_cond_t *c){ struct vcv *x=(struct vcv*)c; assert(x->magic==0x56435631); yield_op(OP_SIGNAL,x->id,0); for(int t=0;t<nT;t++) waiting[x->id][t]=0; return 0; }
+int vs_mutex_trylock(pthread_mutex_t *m){ struct vmx *x=(struct vmx*)m; assert(x->magic==0x564d5831); yield_op(OP_MISC,x->id,0); if(owner[x->id]>=0) return 16 /* EBUSY */; owner[x->id]=me; return 0; }
 int vs_self(void){ return me; }
 int vs_create(pthread_t *pt,const pthread_attr_t *a,void *(*fn)(void*),void *arg){ (void)a; yield_op(OP_CREATE,0,0); assert(nT<MAXT); int id=nT++; struct vthr *x=&T[id]; memset(x,0,sizeof *x); x->used=1; x->fn=fn; x->arg=arg; x->op=OP_START; sem_init(&x->go,0,0);
   int live=0; for(int t=1;t<nT;t++) if(T[t].used&&!T[t].finished) live++; if(live>vs_max_threads_seen) vs_max_threads_seen=live;
